@@ -150,4 +150,15 @@ mutual
     | t :: ts => tbJ t + sumTJ ts
 end
 
+
+mutual
+  /-- Decidable version of `LaOK` (Marks.lean): no child's look-ahead end exceeds its parent's. -/
+  def laokCheck : Tree → Bool
+    | .mk d ks => laokCheckL ks 0 (d.padding.bytes + d.size.bytes + d.lookahead)
+  def laokCheckL : List Tree → Nat → Nat → Bool
+    | [], _, _ => true
+    | c :: rest, l, B =>
+      laokCheck c && decide (l + tbJ c + c.data.lookahead ≤ B) && laokCheckL rest (l + tbJ c) B
+end
+
 end TsVerif.C10
